@@ -406,6 +406,20 @@ fn fold(recs: &[Rec]) -> (Counts, BTreeMap<(usize, usize, usize), ScAcc>) {
     (c, sc)
 }
 
+/// What a summary of this (raw or normalized) stream has to state, from the independent fold.
+pub fn expected_summary(items: &[Item]) -> serde_json::Value {
+    let recs = fps(items);
+    let (c, scs) = fold(&recs);
+    let retried_bound = scs.values().filter(|a| a.retried_failure || a.hook_failed_nonfinal).count();
+    json!({
+        "features": c.features, "rules": c.rules,
+        "scenarios": {"passed": c.scenarios[0], "skipped": c.scenarios[1], "failed": c.scenarios[2], "retried_at_most": retried_bound},
+        "steps": {"passed": c.steps[0], "skipped": c.steps[1], "failed": c.steps[2], "retried": c.steps[3]},
+        "parsing_errors": c.parsing, "hook_errors": c.hooks,
+        "finished": recs.iter().any(|r| r.ev == Ev::Finished),
+    })
+}
+
 fn parse_summary(s: &str) -> (Option<usize>, Option<usize>) {
     let mut feats = None;
     let mut rules = None;
@@ -768,6 +782,26 @@ pub fn c13(items: &[Item], t: &mut Tally, idx: u64, rng: &mut Rng) {
         ];
         if got != [3, 7, 4, 8, 5, 9] {
             v.push(("tee:stats".into(), format!("Tee stats {got:?}, maximum of the inner ones is [3, 7, 4, 8, 5, 9]")));
+        }
+        // the verdict is a statistic too: sides with their own notion of failure (hook errors of
+        // retried attempts do not fail a `Summarize`) combine as the maximum, i.e. either side
+        for (lv, rv) in [(false, false), (true, false), (false, true), (true, true)] {
+            let (mut l, _) = RecW::with_stats([3, 0, 0, 1, 0, 2]);
+            let (mut r, _) = RecW::with_stats([3, 0, 0, 1, 0, 1]);
+            l.verdict = Some(lv);
+            r.verdict = Some(rv);
+            let w = writer::Tee::new(l, r);
+            if Stats::<TW>::execution_has_failed(&w) != (lv || rv) {
+                v.push(("tee:stats".into(), format!("Tee::execution_has_failed() = {} over sides reporting {lv} and {rv}", !(lv || rv))));
+            }
+            let (mut l, _) = RecW::with_stats([3, 0, 0, 1, 0, 2]);
+            let (mut r, _) = RecW::with_stats([3, 0, 0, 1, 0, 1]);
+            l.verdict = Some(lv);
+            r.verdict = Some(rv);
+            let w = writer::Or::new(l, r, |_: &Item, _: &cli::Compose<cli::Empty, cli::Empty>| true);
+            if Stats::<TW>::execution_has_failed(&w) != (lv || rv) {
+                v.push(("or:stats".into(), format!("Or::execution_has_failed() = {} over sides reporting {lv} and {rv}", !(lv || rv))));
+            }
         }
         relevant += 1;
     }
